@@ -248,7 +248,7 @@ def custom(ctx):
 
 SPEC = {
     "id": "C11",
-    "gens": ["CondTables"],
+    "gens": ["CondTables", "MacroTables"],
     "lean_modules": ["RsslVerif.Thm.C11"],
     "theorems": [T + n for n in [
         "chain_tables_agree", "automaton_refines_tree", "automaton_refines_tree_any_stack",
